@@ -351,19 +351,30 @@ class CallListerVisitor(ast.NodeVisitor):
         self.generic_visit(node)
 
     def visit_ListComp(self, node):
-        # the targets of the generators are bound before the element is
-        # evaluated, but come after it in the node's fields
-        for generator in node.generators:
-            self.visit(generator)
-        self.visit(node.elt)
+        self.process_comprehension(node, [node.elt])
 
     visit_SetComp = visit_GeneratorExp = visit_ListComp
 
     def visit_DictComp(self, node):
+        self.process_comprehension(node, [node.key, node.value])
+
+    def process_comprehension(self, node, elements):
+        # the targets of the generators are bound before the element is
+        # evaluated, but come after it in the node's fields
+        # the element is evaluated once per item, like the body of a loop:
+        # look at it once for what it does to the names, then again for the
+        # calls (see visit_For)
         for generator in node.generators:
             self.visit(generator)
-        self.visit(node.key)
-        self.visit(node.value)
+        calls, to_revisit = len(self.calls), len(self.to_revisit)
+        for expr in elements:
+            self.visit(expr)
+        del self.calls[calls:], self.to_revisit[to_revisit:]
+        for generator in node.generators:
+            for cond in generator.ifs:
+                self.visit(cond)
+        for expr in elements:
+            self.visit(expr)
 
     def visit_For(self, node):
         # a name rebound anywhere in a loop may already be rebound when a call
